@@ -291,7 +291,7 @@ def pairs():
 def main(tier, seed):
     run = Run("C03", tier, seed, "exploration")
     ps = pairs()
-    nops = 60 if tier == "quick" else 400
+    nops = 150 if tier == "quick" else 2500
     n = NCPU
     res = run_shards("checks.c03", "shard", [{"combos": ps[i::n], "seed": seed, "nops": nops} for i in range(n) if ps[i::n]], timeout=3000)
     run.absorb(res)
